@@ -33,7 +33,7 @@ enum Op {
     SymBv(usize, u32),
     SymArr(usize, u32, u32),
     /// bv_lit / lit(Value::BitVec): width, words of the value as handed over, how it was produced, which entry point
-    Lit { w: u32, words: Words, route: String, api: u8 },
+    Lit { w: u32, words: Words, route: String, api: u8, via: Option<(String, Words, u64)> },
     BitVecVal(u128, u32),
     Zero(u32),
     One(u32),
@@ -129,7 +129,10 @@ fn dump_op(op: &Op, bld: bool, observed: Option<&(Words, Vec<(Words, Words)>)>) 
         Op::ArrSym(s, iw, dw) => format!("(arrsym {} {iw} {dw})", quote(s)),
         Op::SymBv(n, w) => format!("(symbv {n} {w})"),
         Op::SymArr(n, iw, dw) => format!("(symarr {n} {iw} {dw})"),
-        Op::Lit { w, words, route, api } => format!("(lit {w} {} {route} {api})", words_str(words)),
+        Op::Lit { w, words, route, api, via } => match via {
+            Some((kind, src, k)) => format!("(lit {w} {} {route} {api} (via {kind} {} {k}))", words_str(words), words_str(src)),
+            None => format!("(lit {w} {} {route} {api})", words_str(words)),
+        },
         Op::BitVecVal(v, w) => format!("(bitvecval {v} {w})"),
         Op::Zero(w) => format!("(zero {w})"),
         Op::One(w) => format!("(one {w})"),
@@ -199,7 +202,20 @@ fn parse_op(x: &Sexp) -> (Op, bool) {
         "arrsym" => Op::ArrSym(l[1].atom().to_string(), w(2), w(3)),
         "symbv" => Op::SymBv(u(1), w(2)),
         "symarr" => Op::SymArr(u(1), w(2), w(3)),
-        "lit" => Op::Lit { w: w(1), words: parse_words(&l[2]), route: l[3].atom().to_string(), api: l[4].atom().parse().unwrap() },
+        "lit" => {
+            let via = l.get(5).map(|v| {
+                let v = v.list();
+                (v[1].atom().to_string(), parse_words(&v[2]), v[3].atom().parse::<u64>().unwrap())
+            });
+            let mut words = parse_words(&l[2]);
+            if let Some((kind, src, k)) = &via {
+                // the value is recomputed by patronus itself on every replay
+                if let Ok(Some(v)) = guarded(|| patronus_shl(kind, w(1), src, *k)) {
+                    words = v.words().to_vec();
+                }
+            }
+            Op::Lit { w: w(1), words, route: l[3].atom().to_string(), api: l[4].atom().parse().unwrap(), via }
+        }
         "bitvecval" => Op::BitVecVal(l[1].atom().parse().unwrap(), w(2)),
         "zero" => Op::Zero(w(1)),
         "one" => Op::One(w(1)),
@@ -732,6 +748,22 @@ fn apply(ctx: &mut Context, op: &Op, bld: bool, srefs: &[Option<StringRef>]) -> 
     Ok(r)
 }
 
+/// `src << k` at width w as patronus computes it: constant folding (`simplify_shl`) or evaluation (`eval_shl`)
+fn patronus_shl(kind: &str, w: u32, src: &[u64], k: u64) -> Option<BitVecValue> {
+    let mut scratch = Context::default();
+    let (a, b) = (scratch.bv_lit(&value_of(w, src)), scratch.bv_lit(&BitVecValue::from_u64(k, w)));
+    let e = scratch.shift_left(a, b);
+    if kind == "eval_shl" {
+        Some(eval_bv_expr(&scratch, &SymbolValueStore::default(), e))
+    } else {
+        let r = simplify_single_expression(&mut scratch, e);
+        match &scratch[r] {
+            Expr::BVLiteral(v) => Some(BitVecValue::from(v.get(&scratch))),
+            _ => None,
+        }
+    }
+}
+
 // ------------------------------------------------------------------ literal values by many routes
 fn from_bits(bits: &str) -> BitVecValue {
     BitVecValue::from_bit_str(bits).unwrap()
@@ -747,7 +779,7 @@ const ROUTES: [&str; 33] = [
 ];
 
 /// produce the value with bit string `bits` (msb first) by the given computation; None = route not applicable
-fn value_via(rng: &mut Rng, bits: &str, route: &str, label: &mut String) -> Option<BitVecValue> {
+fn value_via(rng: &mut Rng, bits: &str, route: &str, label: &mut String, via: &mut Option<(String, Words, u64)>) -> Option<BitVecValue> {
     let w = bits.len() as u32;
     let target = from_bits(bits);
     let lead0 = bits.bytes().take_while(|b| *b == b'0').count();
@@ -855,21 +887,11 @@ fn value_via(rng: &mut Rng, bits: &str, route: &str, label: &mut String) -> Opti
             match route {
                 "simplify_shl" | "eval_shl" => {
                     // the value as patronus itself computes it (constant folding / concrete evaluation)
-                    let mut scratch = Context::default();
-                    let (a, b) = (scratch.bv_lit(&src), scratch.bv_lit(&amount));
-                    let e = scratch.shift_left(a, b);
                     if k % 64 == 0 {
                         label.push_str("_words");
                     }
-                    if route == "eval_shl" {
-                        eval_bv_expr(&scratch, &SymbolValueStore::default(), e)
-                    } else {
-                        let r = simplify_single_expression(&mut scratch, e);
-                        match &scratch[r] {
-                            Expr::BVLiteral(v) => BitVecValue::from(v.get(&scratch)),
-                            _ => return None,
-                        }
-                    }
+                    *via = Some((route.to_string(), src.words().to_vec(), k as u64));
+                    patronus_shl(route, w, src.words(), k as u64)?
                 }
                 _ => src.shift_left(&amount),
             }
@@ -1171,8 +1193,13 @@ impl<'a> Gen<'a> {
         for _ in 0..6 {
             let route = *self.rng.pick(&ROUTES);
             let rng = &mut *self.rng;
+            if route == "shl_words" && !rng.chance(1, 5) {
+                // direct use of baa's whole-word shift (a recorded dependency defect): keep it rare
+                continue;
+            }
             let mut label = route.to_string();
-            let produced = guarded(|| value_via(rng, &bits, route, &mut label));
+            let mut via = None;
+            let produced = guarded(|| value_via(rng, &bits, route, &mut label, &mut via));
             match produced {
                 Ok(Some(v)) => {
                     if v.width() != w {
@@ -1184,23 +1211,23 @@ impl<'a> Gen<'a> {
                     if produced_bits != bits && pool.len() < 16 {
                         pool.push(produced_bits);
                     }
-                    return Op::Lit { w, words: v.words().to_vec(), route: label, api };
+                    return Op::Lit { w, words: v.words().to_vec(), route: label, api, via };
                 }
                 Ok(None) => continue,
                 Err(_) => continue, // a baa operation panicked while producing the value: not this property's business
             }
         }
         let v = from_bits(&bits);
-        Op::Lit { w, words: v.words().to_vec(), route: "direct".into(), api: 0 }
+        Op::Lit { w, words: v.words().to_vec(), route: "direct".into(), api: 0, via: None }
     }
 
     fn lit_arr_op(&mut self) -> Op {
         let dw = self.width();
         if self.rng.chance(1, 4) {
-            // dense table: data width 1 (bit table) or > 8 (word tables); the u8 table of baa's
-            // dense->sparse conversion indexes a [usize; 8] by the data byte and is avoided here
+            // dense table: data width 1 (bit table), 2..8 (u8 table: baa's dense->sparse conversion indexes a
+            // [usize; 8] by the data byte and panics for bytes >= 8, a recorded dependency defect) or > 8 (word tables)
             let iw = self.rng.range(1, 3) as u32;
-            let dw = if self.rng.chance(1, 2) { 1 } else { *self.rng.pick(&[9u32, 16, 33, 64, 65, 100]) };
+            let dw = if self.rng.chance(1, 2) { 1 } else { *self.rng.pick(&[2u32, 3, 4, 8, 9, 16, 33, 64, 65, 100]) };
             // a strict majority value, so that the default chosen by baa is determined
             let n = 1usize << iw;
             let major = lit_value(self.rng, dw);
@@ -1586,6 +1613,14 @@ fn demo_finding() {
     println!("simplify(shift_left(65'h3, 65'd64)) -> {}", show(folded));
     println!("bv_lit(65'h1_0000000000000000)      -> {}", show(canonical));
     println!("bv_lit(eval(shift_left(..)))        -> {}", show(via_eval));
+    {
+        // baa's dense -> sparse conversion of the u8 table, reached through Context::lit
+        let mut a = ArrayValue::new_dense(2, &BitVecValue::from_u64(9, 4));
+        a.store(&BitVecValue::from_u64(1, 2), &BitVecValue::from_u64(3, 4));
+        let mut c2 = Context::default();
+        let r = guarded(|| c2.lit(Value::Array(a)));
+        println!("lit(dense bv<2> -> bv<4> array [9,3,9,9]) -> {:?} at {}", r.map(|e| format!("{e:?}")), last_panic_loc());
+    }
     println!("same reference: {}   same printed value: {}", folded == canonical, {
         let (x, y) = (show(folded), show(canonical));
         x.split("bits=").nth(1).unwrap().split(' ').next().unwrap() == y.split("bits=").nth(1).unwrap().split(' ').next().unwrap()
